@@ -252,6 +252,7 @@ func runCheck(spec *PropSpec, o *checkOpts) int {
 			"discharged":         discharged,
 			"failed":             len(fails),
 			"known_findings_hit": len(knownHit),
+			"failed_obligations": failedList(fails, known, spec.ID),
 			"rules":              revs,
 			"rules_applied":      rulesList,
 			"samples":            samples,
@@ -399,4 +400,18 @@ func cmdDump(args []string) int {
 		}
 	}
 	return 0
+}
+
+func failedList(fails []Obl, known []KnownFinding, prop string) []map[string]string {
+	out := []map[string]string{}
+	for _, f := range fails {
+		status := "VIOLATION"
+		for _, k := range known {
+			if k.Property == prop && k.Status == "known" && k.Key == f.Key {
+				status = "known finding"
+			}
+		}
+		out = append(out, map[string]string{"key": f.Key, "pos": f.Pos, "func": f.Func, "required": f.What, "failed": f.Why, "status": status})
+	}
+	return out
 }
